@@ -147,20 +147,23 @@ func c07AddrOp(a netip.Addr) string {
 }
 
 func c07Out(r *VRand, nUp int, resp bool) string {
-	k := r.Intn(nUp + 2)
-	if k < nUp {
-		return fmt.Sprintf("u%d", k)
-	}
+	x := r.Intn(100)
 	if resp {
-		if k == nUp {
+		switch {
+		case x < 35 || nUp == 0 && x < 70:
 			return "accept"
+		case x < 50 || nUp == 0:
+			return "reject"
 		}
-		return "reject"
+	} else {
+		switch {
+		case x < 22 || nUp == 0 && x < 60:
+			return "asis"
+		case x < 40 || nUp == 0:
+			return "reject"
+		}
 	}
-	if k == nUp {
-		return "asis"
-	}
-	return "reject"
+	return fmt.Sprintf("u%d", r.Intn(nUp))
 }
 
 func c07GenFunc(r *VRand, nUp int, resp bool, stats *VStats) c07Func {
